@@ -37,7 +37,7 @@ def sync_timestamps(tsa, tsb, tbin=0.1, return_indices=False, linear=False):
     tmin = np.min([np.min(tsa), np.min(tsb)])
     tmax = np.max([np.max(tsa), np.max(tsb)])
     # brute force correlation to get an estimate of the delta_t between series
-    x = np.zeros(int(np.ceil(tmax - tmin) / tbin))
+    x = np.zeros(int(np.ceil(tmax - tmin) / tbin) + 1)
     y = np.zeros_like(x)
     x[np.int32(np.floor((tsa - tmin) / tbin))] = 1
     y[np.int32(np.floor((tsb - tmin) / tbin))] = 1
